@@ -18,10 +18,10 @@ MANIFEST = {
 
 INVARIANTS = ["C01_Group"]
 PROPERTIES = ["C07_NoNewWork", "C07_NoInsertBelow", "C07_SubtreeOnly"]
-QUICK = ['nest_s', 'alw', 'nestc']
-THOROUGH = ['nest_s', 'alw', 'nestc', 'sib', 'chain2', 'grp2', 'jpim_s', 'clean', 'upd2', 'nest', 'jpim']
+QUICK = ['nest_s', 'alw', 'nestc', 'ffroot']
+THOROUGH = ['nest_s', 'alw', 'nestc', 'sib', 'chain2', 'grp2', 'jpim_s', 'clean', 'upd2', 'nest', 'jpim', 'ffroot', 'ff_s', 'ff']
 FINDINGS = []
 
 
 def run(ctx):
-    B.run_property(ctx, "C07", INVARIANTS, PROPERTIES, QUICK, THOROUGH, FINDINGS)
+    B.run_property(ctx, "C07", INVARIANTS, PROPERTIES, QUICK, THOROUGH, FINDINGS, check_selection={"ffroot", "ff_s"}, overlap=['nest_s', 'alw'])
